@@ -9,7 +9,7 @@ From H264 Require Import Base.Prelude Model.BitReader Model.Parser Model.RefNal 
      Model.Slice Model.Sei Model.Avcc Model.AnnexB
      Proofs.C07_proofs Proofs.Wp Proofs.SpsInv Proofs.PpsInv Proofs.SliceInv Proofs.SeiProofs Proofs.C09_proofs
      Proofs.C13_proofs Proofs.C15_proofs Proofs.AnnexB_push Proofs.AnnexB_compose
-     Model.Rbsp Proofs.RbspReader Proofs.RbspStream.
+     Model.Rbsp Proofs.RbspReader Proofs.RbspStream Proofs.SliceConverse Proofs.SizeBounds.
 Local Open Scope N_scope.
 
 (* bit reader: ue / se never overflow their u32 / i32 arithmetic *)
@@ -120,3 +120,14 @@ Proof.
   destruct (Nat.eqb (length p) (length (List.tl (n0 :: nt)))); exact I.
 Qed.
 Print Assumptions C03_decode_nal.
+
+(* value-level side of "never requests memory beyond a multiple of the input": every variable-length part of an
+   accepted structure has at most as many elements as the input has bits (the input IS the encoding of the structure -
+   converse theorems - and every element costs at least one bit) *)
+Theorem C03_sizes_bounded :
+  (forall s v s', sps_body s = OK (v, s') -> (sps_elems v <= length (bits s))%nat) /\
+  (forall c s v s', ctx_sps_ok c -> pps_body c s = OK (v, s') -> (slice_group_elems (slice_groups v) <= length (bits s))%nat) /\
+  (forall c hdr s h sid pid s', ctx_ok c -> ctx_keyed c -> slice_header_read c hdr s = OK ((h, sid, pid), s') ->
+     (rpl_elems (ref_pic_list_modification h) + drm_elems (sh_dec_ref_pic_marking h) <= length (bits s))%nat).
+Proof. split; [exact sps_elems_bounded|split; [exact pps_elems_bounded|exact slice_elems_bounded]]. Qed.
+Print Assumptions C03_sizes_bounded.
